@@ -67,7 +67,8 @@ type loopKey struct {
 
 type Decl struct {
 	Name string
-	Kind byte // 'i','b','s'
+	Kind byte // 'i','b','s' (SMT String), 'S' (byte-vector string of length Len)
+	Len  int
 }
 
 type Violation struct {
@@ -269,10 +270,7 @@ func (e *Engine) Execute(z *Solver, name string, prefix []int, maxDelays int, wa
 		if len(want)+len(oterms) > 0 {
 			st, m := z.Check("", append(want, oterms...))
 			if st == "sat" {
-				res.Model = map[string]string{}
-				for _, w := range want {
-					res.Model[w] = m[w]
-				}
+				res.Model = packModel(r.Decls, m)
 				for _, o := range r.Observes {
 					if k := strings.Index(o, "="); k >= 0 {
 						res.ObservesConcrete = append(res.ObservesConcrete, o[:k+1]+m[o[k+1:]])
